@@ -18,6 +18,7 @@
 #include <string>
 #include <vector>
 #include <functional>
+#include <exception>
 #include <initializer_list>
 #include <unistd.h>
 #include <signal.h>
@@ -159,7 +160,10 @@ inline int run_child(const Opt& o, long resume, FILE* out, double t_end) {
         memcpy(sh->cur_key, kb, kn + 1);
         sh->cur_index = index; sh->started = 1;
         alarm((unsigned)o.case_timeout);
-        Outcome r = nmc_execute(c);
+        Outcome r;
+        try { r = nmc_execute(c); }
+        catch (const std::exception& e) { r = Outcome::bad("crash", std::string("uncaught exception: ") + e.what()); sh->crashes++; }
+        catch (...) { r = Outcome::bad("crash", "uncaught exception (non-std)"); sh->crashes++; }
         alarm(0);
         sh->started = 0;
         sh->evaluations++;
@@ -201,7 +205,10 @@ inline int main_(int argc, char** argv) {
     if (!o.one.empty()) {   // replay of one case, in this very process; exit 0 pass / 1 fail (crash = signal)
         nmc_selftest();
         Case c = Case::parse(o.one);
-        Outcome r = nmc_execute(c);
+        Outcome r;
+        try { r = nmc_execute(c); }
+        catch (const std::exception& e) { r = Outcome::bad("crash", std::string("uncaught exception: ") + e.what()); }
+        catch (...) { r = Outcome::bad("crash", "uncaught exception (non-std)"); }
         if (r.fail.empty()) { printf("PASS\t%s\n", o.one.c_str()); return 0; }
         printf("FAIL\t%s\t%s\t%s\n", r.kind, o.one.c_str(), r.fail.c_str()); return 1;
     }
